@@ -50,11 +50,11 @@ def pdu_len(kind, r):
 
 def enc_requires(kind, r, lf):
     if kind == "bytes":
-        return [f"requires len({r}.Data) <= 252"]
+        return [f"requires len({r}.Data) <= 255"]
     if kind == "regs":
-        return [f"requires len({r}.Data) <= 252 && int({r}.{lf}) == len({r}.Data)"]
+        return [f"requires int({r}.{lf}) == len({r}.Data)"]
     if kind == "fc17":
-        return [f"requires len({r}.ServerID) <= 251 && len({r}.ServerID) + len({r}.AdditionalData) <= 249"]
+        return [f"requires len({r}.ServerID) <= 255 && len({r}.ServerID) + len({r}.AdditionalData) <= 60000"]
     return []
 
 def resp_wf(kind, fc, d, o, fr, minbc):
